@@ -731,3 +731,275 @@ Proof.
 Qed.
 
 End Pair.
+
+(* ------------------------------------------------------------------ *)
+(* Part 4.  Whole runs                                                  *)
+(* ------------------------------------------------------------------ *)
+(* the states at the end of every cycle of a run *)
+Fixpoint fstates (cfgs : list ncfg) (kinds : list fkind) (beh : behaviour) (end_ : Z) (fuel : nat) (x : xst) : list xst :=
+  match fuel with
+  | O => []
+  | S f =>
+      let g := f_g x in
+      if negb (g_err g =? 0) then [] else
+      if (g_nst g =? MAX_DT) || (end_ <=? g_nst g) then [] else
+      let x' := fcycle cfgs kinds beh (g_nst g) x in x' :: fstates cfgs kinds beh end_ f x'
+  end.
+
+(* the stream of (time, value) ticks of node i's output over those cycles *)
+Definition ticks_of (i : nat) (l : list xst) : list (Z * Z) :=
+  flat_map (fun x => match tick_now i (f_g x) with Some v => [(g_now (f_g x), v)] | None => [] end) l.
+
+Definition shift (tv : Z * Z) : Z * Z := (fst tv + MIN_TD, snd tv).
+Definition deliverable (end_ : Z) (tv : Z * Z) : bool := fst tv + MIN_TD <? end_.
+
+Section Run.
+Variable cfgs : list ncfg.
+Variable kinds : list fkind.
+Variable beh : behaviour.
+Notation n := (length cfgs).
+Notation cfg := (EngineFacts.cfg cfgs).
+Notation kind := (kind_at kinds).
+Hypothesis WF : fb_wf cfgs kinds.
+Variables (k p s : nat) (init : option Z).
+Hypothesis HK : kind k = FSink.
+Hypothesis HC : cfg k = sink_cfg p s.
+Hypothesis HS : kind s = FSource init.
+
+Lemma frun_err_sticky end_ fuel : forall x, g_err (f_g x) <> 0 -> g_err (f_g (frun cfgs kinds beh end_ fuel x)) <> 0.
+Proof.
+  induction fuel as [|f IH]; intros x H; simpl.
+  - lia.
+  - replace (negb (g_err (f_g x) =? 0)) with true by lia. auto.
+Qed.
+
+Definition pend_prefix (end_ : Z) (pend : option Z) (x : xst) : list (Z * Z) :=
+  match pend with
+  | Some v => if g_nst (f_g x) <? end_ then [(g_nst (f_g x), v)] else []
+  | None => []
+  end.
+
+Lemma run_shift end_ fuel : forall pend x,
+  FB cfgs k p s pend x -> end_ <= MAX_DT ->
+  g_err (f_g (frun cfgs kinds beh end_ fuel x)) = 0 ->
+  ticks_of s (fstates cfgs kinds beh end_ fuel x) =
+  pend_prefix end_ pend x ++ map shift (filter (deliverable end_) (ticks_of p (fstates cfgs kinds beh end_ fuel x))).
+Proof.
+  induction fuel as [|f IH]; intros pend x HF He Herr.
+  - simpl in Herr. lia.
+  - simpl in *. destruct (negb (g_err (f_g x) =? 0)) eqn:E0; [lia|].
+    destruct ((g_nst (f_g x) =? MAX_DT) || (end_ <=? g_nst (f_g x))) eqn:Es.
+    + simpl. unfold pend_prefix. destruct pend; auto.
+      replace (g_nst (f_g x) <? end_) with false by lia. reflexivity.
+    + set (x' := fcycle cfgs kinds beh (g_nst (f_g x)) x) in *.
+      assert (Herr' : g_err (f_g x') = 0).
+      { destruct (Z.eq_dec (g_err (f_g x')) 0); auto. exfalso. revert Herr. apply frun_err_sticky; auto. }
+      destruct (fcycle_pair cfgs kinds beh WF k p s init HK HC HS pend x HF ltac:(lia) Herr') as (N & R & F' & Gt & W).
+      fold x' in N, R, F', Gt, W.
+      specialize (IH (tick_now p (f_g x')) x' F' He Herr).
+      unfold ticks_of in *. cbn [flat_map]. rewrite IH, R, N. clear IH.
+      unfold pend_prefix. replace (g_nst (f_g x) <? end_) with true by lia.
+      destruct (tick_now p (f_g x')) as [w|] eqn:Ew.
+      * rewrite (W ltac:(congruence)). cbn [app filter].
+        change (deliverable end_ (g_nst (f_g x), w)) with (g_nst (f_g x) + MIN_TD <? end_).
+        destruct (g_nst (f_g x) + MIN_TD <? end_); destruct pend; cbn [map app]; reflexivity.
+      * destruct pend; cbn [map app]; reflexivity.
+Qed.
+
+(* ---- the start phase ---- *)
+Lemma start_node_spec behs i g :
+  (i < length (g_nodes g))%nat ->
+  let g' := start_node cfgs behs i g in
+  g_now g' = g_now g /\ length (g_slots g') = length (g_slots g) /\ length (g_nodes g') = length (g_nodes g) /\
+  (forall m, m <> i -> node_at m g' = node_at m g) /\ (forall m, m <> i -> slot_at m g' = slot_at m g) /\
+  n_val (node_at i g') = n_val (node_at i g) /\ n_lmt (node_at i g') = n_lmt (node_at i g) /\
+  (g_err g' = 0 -> n_started (node_at i g') = true).
+Proof.
+  intros Hi. cbn zeta. unfold start_node.
+  destruct (negb (g_err g =? 0)) eqn:E0; [repeat split; auto; intros; lia|]. cbn zeta.
+  set (ops := behs i (-1) (g_now g) (read_inputs (nth i cfgs dflt_cfg) g) (n_sch (node_at i g))).
+  pose proof (frame_do_ops cfgs false i ops 0 g Hi) as [F1 F2 F3 F4 F5 F6 F7 F8].
+  set (g1 := do_ops cfgs i false 0 ops g) in *.
+  destruct F8 as [(Q1 & Q2 & Q3)|[X _]]; [|discriminate].
+  destruct (negb (g_err g1 =? 0)) eqn:E1; [repeat split; auto; intros; lia|].
+  set (g2 := upd_node i set_started g1).
+  assert (G2 : g_now g2 = g_now g /\ length (g_slots g2) = length (g_slots g) /\ length (g_nodes g2) = length (g_nodes g) /\
+          (forall m, m <> i -> node_at m g2 = node_at m g) /\ (forall m, slot_at m g2 = slot_at m g1) /\
+          n_val (node_at i g2) = n_val (node_at i g) /\ n_lmt (node_at i g2) = n_lmt (node_at i g) /\
+          n_started (node_at i g2) = true).
+  { unfold g2. repeat split; auto.
+    - unfold upd_node; simpl. rewrite update_length. auto.
+    - intros m Hm. rewrite node_at_upd_other; auto.
+    - rewrite node_at_upd_same by lia. simpl. auto.
+    - rewrite node_at_upd_same by lia. simpl. auto.
+    - rewrite node_at_upd_same by lia. reflexivity. }
+  destruct G2 as (A1 & A2 & A3 & A4 & A5 & A6 & A7 & A8).
+  destruct (c_sos (nth i cfgs dflt_cfg)).
+  - destruct (schedule_node_spec i (g_now g2) g2) as (N1 & N2 & _).
+    assert (ND : forall m, node_at m (schedule_node i (g_now g2) g2) = node_at m g2) by (intros; apply node_at_schedule_node).
+    repeat split; try congruence;
+      try solve [rewrite schedule_node_len; auto];
+      try solve [intros m Hm; rewrite schedule_node_slot_other by auto; rewrite A5; auto];
+      try solve [intros m Hm; rewrite ?ND; auto];
+      try solve [rewrite ND; auto]; try solve [intros _; rewrite ND; auto].
+  - repeat split; auto; try solve [intros m Hm; rewrite A5; auto].
+Qed.
+
+(* the start of the two feedback kinds: only a source with an initial delta arms itself *)
+Lemma start_node_fb_slot i g :
+  (i < length (g_nodes g))%nat -> (i < length (g_slots g))%nat -> g_err (start_node cfgs (fb_beh kinds beh) i g) = 0 ->
+  (kind i = FSink \/ kind i = FSource None -> c_sos (cfg i) = false ->
+     slot_at i (start_node cfgs (fb_beh kinds beh) i g) = slot_at i g) /\
+  (forall v, kind i = FSource (Some v) -> c_sos (cfg i) = false -> slot_at i g <= g_now g ->
+     slot_at i (start_node cfgs (fb_beh kinds beh) i g) = g_now g).
+Proof.
+  intros Hi Hs. unfold start_node. fold (cfg i).
+  destruct (negb (g_err g =? 0)) eqn:E0; [intros; lia|]. cbn zeta. intros Herr.
+  split.
+  - intros Hk Hsos. rewrite Hsos. unfold fb_beh. destruct Hk as [Hk|Hk]; rewrite Hk; simpl; rewrite E0; reflexivity.
+  - intros v Hk Hsos Hle. unfold fb_beh in *. rewrite Hk in *. rewrite Hsos in *. simpl in *. unfold do_op in *. rewrite E0 in *.
+    rewrite Z.add_0_r in *.
+    destruct (schedule_node_spec i (g_now g) g) as (_ & _ & _ & _ & N4). specialize (N4 ltac:(lia)).
+    destruct N4 as (Er & Y & _).
+    assert (AP : sn_applies i (g_now g) g = true) by (unfold sn_applies; lia).
+    destruct (Y AP) as [YS _].
+    replace (negb (g_err (schedule_node i (g_now g) g) =? 0)) with false by lia.
+    change (slot_at i (schedule_node i (g_now g) g) = g_now g).
+    unfold slot_at. rewrite YS. apply slot_at_set_same; auto.
+Qed.
+
+Record SQ (start : Z) (i : nat) (g : gst) : Prop := {
+  sq_now : g_now g = start;
+  sq_ls : length (g_slots g) = n;
+  sq_ln : length (g_nodes g) = n;
+  sq_lmt : forall m, n_lmt (node_at m g) = MIN_DT;
+  sq_started : forall m, (m < i)%nat -> n_started (node_at m g) = true;
+  sq_k : slot_at k g = MIN_DT;
+  sq_s : slot_at s g = if (s <? i)%nat then (match init with Some _ => start | None => MIN_DT end) else MIN_DT }.
+
+Lemma start_nodes_SQ start m : forall i g,
+  MIN_DT < start -> (i + m = n)%nat -> SQ start i g ->
+  g_err (start_nodes cfgs (fb_beh kinds beh) i m g) = 0 -> SQ start n (start_nodes cfgs (fb_beh kinds beh) i m g).
+Proof.
+  pose proof (s_lt_k cfgs kinds WF k p s HK HC) as SK. pose proof (k_lt cfgs kinds WF k HK) as KL.
+  pose proof (s_cfg cfgs kinds WF s init HS) as SC.
+  induction m as [|m IH]; intros i g Hst Him H Herr; simpl in *.
+  - replace n with i by lia. exact H.
+  - assert (Herr1 : g_err (start_node cfgs (fb_beh kinds beh) i g) = 0).
+    { destruct (Z.eq_dec (g_err (start_node cfgs (fb_beh kinds beh) i g)) 0); auto.
+      rewrite start_nodes_err_sticky in Herr by auto. contradiction. }
+    apply IH; auto; [lia|].
+    destruct H as [Q1 Q2 Q3 Q4 Q5 Q6 Q7].
+    destruct (start_node_spec (fb_beh kinds beh) i g ltac:(lia)) as (A1 & A2 & A3 & A4 & A5 & A6 & A7 & A8).
+    destruct (start_node_fb_slot i g ltac:(lia) ltac:(lia) Herr1) as [S1 S2].
+    constructor; try congruence.
+    + intros m0. destruct (Nat.eq_dec m0 i) as [->|Hne]; [rewrite A7; auto|rewrite A4; auto].
+    + intros m0 Hm0. destruct (Nat.eq_dec m0 i) as [->|Hne]; [apply A8; auto|rewrite A4; auto; apply Q5; lia].
+    + destruct (Nat.eq_dec k i) as [<-|Hne]; [|rewrite A5; auto].
+      rewrite S1; auto. fold (cfg k). rewrite HC. reflexivity.
+    + destruct (Nat.eq_dec s i) as [<-|Hne].
+      * replace (s <? S s)%nat with true by (symmetry; apply Nat.ltb_lt; lia).
+        replace (s <? s)%nat with false in Q7 by (symmetry; apply Nat.ltb_ge; lia).
+        destruct init as [v|].
+        -- rewrite <- Q1. apply (S2 v); auto; [rewrite SC; reflexivity|]. rewrite Q7. unfold MIN_DT in *. lia.
+        -- rewrite S1; auto. rewrite SC. reflexivity.
+      * rewrite A5 by auto. rewrite Q7.
+        destruct (s <? i)%nat eqn:E1; destruct (s <? S i)%nat eqn:E2; auto.
+        -- apply Nat.ltb_lt in E1. apply Nat.ltb_ge in E2. lia.
+        -- apply Nat.ltb_ge in E1. apply Nat.ltb_lt in E2. lia.
+Qed.
+
+Lemma fstart_FB start :
+  MIN_DT < start -> start <= MAX_DT -> g_err (f_g (fstart cfgs kinds beh start)) = 0 ->
+  FB cfgs k p s init (fstart cfgs kinds beh start) /\ g_now (f_g (fstart cfgs kinds beh start)) = start /\
+  start <= g_nst (f_g (fstart cfgs kinds beh start)) /\
+  (init <> None -> g_nst (f_g (fstart cfgs kinds beh start)) = start).
+Proof.
+  intros Hst HsM. unfold fstart. simpl f_g. unfold start_graph.
+  pose proof (s_lt_k cfgs kinds WF k p s HK HC) as SK. pose proof (k_lt cfgs kinds WF k HK) as KL.
+  set (g0 := mkG start (repeat MIN_DT n) MAX_DT (repeat init_n n) [] 0).
+  assert (H0 : SQ start 0 g0).
+  { constructor; simpl; auto; try apply repeat_length.
+    - intros m. unfold node_at; simpl. destruct (Nat.lt_ge_cases m n).
+      + rewrite nth_repeat. reflexivity.
+      + rewrite nth_overflow; [reflexivity|rewrite repeat_length; auto].
+    - intros; lia.
+    - unfold slot_at; simpl. rewrite nth_repeat. reflexivity.
+    - unfold slot_at; simpl. rewrite nth_repeat. reflexivity. }
+  set (g1 := start_nodes cfgs (fb_beh kinds beh) 0 n g0).
+  destruct (negb (g_err g1 =? 0)) eqn:E1; [intros; lia|]. intros _.
+  pose proof (start_nodes_SQ start n 0%nat g0 Hst ltac:(lia) H0 ltac:(fold g1; lia)) as [Q1 Q2 Q3 Q4 Q5 Q6 Q7].
+  fold g1 in Q1, Q2, Q3, Q4, Q5, Q6, Q7.
+  destruct (seed_fold_le (g_now g1) (g_slots g1) MAX_DT) as [F1 F2].
+  assert (G : forall l acc, g_now g1 <= acc -> g_now g1 <= fold_left (fun a sc => if (g_now g1 <=? sc) && (sc <? a) then sc else a) l acc).
+  { induction l as [|y r IH]; intros acc Ha; simpl; auto. apply IH. destruct ((g_now g1 <=? y) && (y <? acc)) eqn:E; lia. }
+  specialize (G (g_slots g1) MAX_DT ltac:(lia)).
+  set (nst := fold_left (fun a sc => if (g_now g1 <=? sc) && (sc <? a) then sc else a) (g_slots g1) MAX_DT) in *.
+  assert (ND : forall m, node_at m (seed_cache g1) = node_at m g1) by reflexivity.
+  assert (SL : forall m, slot_at m (seed_cache g1) = slot_at m g1) by reflexivity.
+  assert (NS : g_nst (seed_cache g1) = nst) by reflexivity.
+  assert (Q7' : slot_at s g1 = match init with Some _ => start | None => MIN_DT end).
+  { rewrite Q7. replace (s <? n)%nat with true by (symmetry; apply Nat.ltb_lt; lia). reflexivity. }
+  assert (NI : init <> None -> nst = start).
+  { intros Hi. assert (Q7s : slot_at s g1 = start) by (rewrite Q7'; destruct init; congruence).
+    assert (nst <= start); [|lia].
+    rewrite <- Q7s. apply F2; [unfold slot_at; apply nth_In; lia|rewrite Q7s, Q1; lia]. }
+  split; [|split; [exact Q1|split; [rewrite NS; lia|rewrite NS; exact NI]]].
+  constructor; simpl f_g; simpl f_st; auto.
+  - rewrite map_length. apply (wf_len cfgs kinds WF).
+  - rewrite ND, NS, Q4. lia.
+  - rewrite ND, NS, Q4. lia.
+  - rewrite SL, NS, Q6. lia.
+  - rewrite SL, NS.
+    assert (St : state_at s {| f_g := seed_cache g1; f_st := map init_of kinds |} = init).
+    { unfold state_at; simpl. change None with (init_of FNative). rewrite map_nth. fold (kind s). rewrite HS. reflexivity. }
+    rewrite St, Q7'. clear St HS.
+    destruct init as [v|]; [|lia]. split; auto. rewrite NI; congruence.
+Qed.
+
+(* THE SHIFT THEOREM for one pair of any graph *)
+Theorem feedback_shift_l start end_ fuel :
+  MIN_DT < start -> end_ <= MAX_DT ->
+  g_err (f_g (fsim cfgs kinds beh start end_ fuel)) = 0 ->
+  let sts := fstates cfgs kinds beh end_ fuel (fstart cfgs kinds beh start) in
+  ticks_of s sts =
+  (match init with Some v => if start <? end_ then [(start, v)] else [] | None => [] end) ++
+  map shift (filter (deliverable end_) (ticks_of p sts)).
+Proof.
+  intros Hst He Herr. cbn zeta. unfold fsim in Herr.
+  destruct (Z_le_gt_dec start MAX_DT) as [HsM|HsM].
+  - assert (E0 : g_err (f_g (fstart cfgs kinds beh start)) = 0).
+    { destruct (Z.eq_dec (g_err (f_g (fstart cfgs kinds beh start))) 0); auto.
+      exfalso. revert Herr. apply frun_err_sticky; auto. }
+    destruct (fstart_FB start Hst HsM E0) as (F & N & G & NI).
+    rewrite (run_shift end_ fuel init _ F He Herr). f_equal.
+    unfold pend_prefix. clear F Herr E0. destruct init as [v|]; auto.
+    rewrite NI by congruence. reflexivity.
+  - (* start beyond the end of time: no cycle at all *)
+    assert (Hn : forall x, end_ <= g_nst (f_g x) \/ g_nst (f_g x) = MAX_DT -> fstates cfgs kinds beh end_ fuel x = []).
+    { intros x Hx. destruct fuel; simpl; auto. destruct (negb (g_err (f_g x) =? 0)); auto.
+      replace ((g_nst (f_g x) =? MAX_DT) || (end_ <=? g_nst (f_g x))) with true by lia. auto. }
+    replace (start <? end_) with false by lia.
+    assert (E0 : g_err (f_g (fstart cfgs kinds beh start)) = 0).
+    { destruct (Z.eq_dec (g_err (f_g (fstart cfgs kinds beh start))) 0); auto.
+      exfalso. revert Herr. apply frun_err_sticky; auto. }
+    rewrite Hn; [destruct init; reflexivity|].
+    (* the seeded cache is a slot >= start or MAX_DT *)
+    unfold fstart, start_graph in *. simpl f_g in *.
+    set (g1 := start_nodes cfgs (fb_beh kinds beh) 0 n _) in *.
+    destruct (negb (g_err g1 =? 0)) eqn:E1; [lia|].
+    assert (Now1 : g_now g1 = start) by (unfold g1; rewrite start_nodes_now; reflexivity).
+    unfold seed_cache; simpl. rewrite Now1.
+    assert (G : forall l acc, (start <= acc) -> start <= fold_left (fun a sc => if (start <=? sc) && (sc <? a) then sc else a) l acc \/
+                fold_left (fun a sc => if (start <=? sc) && (sc <? a) then sc else a) l acc = acc).
+    { induction l as [|y r IH]; intros acc Ha; simpl; auto.
+      destruct ((start <=? y) && (y <? acc)) eqn:E; [|apply IH; auto].
+      left. destruct (IH y ltac:(lia)) as [X|X]; lia. }
+    assert (G2 : forall l acc, acc <= MAX_DT -> acc < start -> acc = MAX_DT ->
+                 fold_left (fun a sc => if (start <=? sc) && (sc <? a) then sc else a) l acc = acc).
+    { induction l as [|y r IH]; intros acc Ha Hb Hc; simpl; auto.
+      replace ((start <=? y) && (y <? acc)) with false by lia. apply IH; auto. }
+    right. apply G2; lia.
+Qed.
+
+End Run.
